@@ -497,27 +497,32 @@ func guardedEqualityReturn(guardProg *Prog, fn *ssa.Function) bool {
 				return false
 			}
 		}
-		// find a dominating comparison  *(&X.field) == prm  on its true edge
+		// find a dominating comparison  *(&X.field) == prm  that holds here: an == on its true edge or a
+		// != on its false edge (the early-return form)
 		guarded := false
+		edgeHolds := func(d *ssa.BasicBlock, k int) bool {
+			sb := d.Succs[k]
+			return d.Succs[0] != d.Succs[1] && len(sb.Preds) == 1 && (sb == b || sb.Dominates(b))
+		}
 		for _, d := range fn.Blocks {
 			ifi, ok := d.Instrs[len(d.Instrs)-1].(*ssa.If)
-			if !ok || !(d.Succs[0] == b || d.Succs[0].Dominates(b)) {
+			if !ok {
 				continue
 			}
-			conds := []ssa.Value{ifi.Cond}
-			for _, cnd := range conds {
-				bo, ok := cnd.(*ssa.BinOp)
-				if !ok || bo.Op != token.EQL {
+			bo, ok := ifi.Cond.(*ssa.BinOp)
+			if !ok {
+				continue
+			}
+			if !(bo.Op == token.EQL && edgeHolds(d, 0) || bo.Op == token.NEQ && edgeHolds(d, 1)) {
+				continue
+			}
+			for _, pair := range [][2]ssa.Value{{bo.X, bo.Y}, {bo.Y, bo.X}} {
+				ld, ok := pair[0].(*ssa.UnOp)
+				if !ok || ld.Op != token.MUL || pair[1] != prm {
 					continue
 				}
-				for _, pair := range [][2]ssa.Value{{bo.X, bo.Y}, {bo.Y, bo.X}} {
-					ld, ok := pair[0].(*ssa.UnOp)
-					if !ok || ld.Op != token.MUL || pair[1] != prm {
-						continue
-					}
-					if fa2, ok := ld.X.(*ssa.FieldAddr); ok && fa2.Field == fa.Field && fa2.X == fa.X {
-						guarded = true
-					}
+				if fa2, ok := ld.X.(*ssa.FieldAddr); ok && fa2.Field == fa.Field && fa2.X == fa.X {
+					guarded = true
 				}
 			}
 		}
@@ -529,7 +534,15 @@ func guardedEqualityReturn(guardProg *Prog, fn *ssa.Function) bool {
 			want := qz.prov(fa.X, 0) + "." + st.Field(fa.Field).Name()
 			for _, d := range fn.Blocks {
 				ifi, ok := d.Instrs[len(d.Instrs)-1].(*ssa.If)
-				if !ok || !(d.Succs[0] == b || d.Succs[0].Dominates(b)) || d.Succs[0] == d.Succs[1] {
+				if !ok {
+					continue
+				}
+				neg := false
+				switch {
+				case edgeHolds(d, 0):
+				case edgeHolds(d, 1):
+					neg = true
+				default:
 					continue
 				}
 				var conj func(q *qf)
@@ -544,7 +557,11 @@ func guardedEqualityReturn(guardProg *Prog, fn *ssa.Function) bool {
 						guarded = true
 					}
 				}
-				conj(qz.boolOf(ifi.Cond, map[*ssa.Phi]*qf{}))
+				f := qz.boolOf(ifi.Cond, map[*ssa.Phi]*qf{})
+				if neg {
+					f = qNot(f)
+				}
+				conj(f)
 			}
 		}
 		if !guarded {
